@@ -1,0 +1,17 @@
+//go:build verif
+
+package telegram
+
+// Contracts for govc (contract-based deductive verification). Comment-only file.
+
+// C20: the Telegram integration's verdicts: a failed send is a recoverable failure (never a success), a sent message is
+// a success; exactly one send per delivery, to the configured chat.
+//@ func (*Notifier).Notify
+//@   props C20
+//@   nosafe
+//@   abstract
+//@   after call wrapWithFailureReason assume (res0 != nil) == (arg0 != nil)
+//@   ensures [a-failed-send-is-a-recoverable-failure] called("Bot).Send") && ret1("Bot).Send") != nil ==> result0 && result1 != nil
+//@   ensures [success-only-after-a-sent-message] result1 == nil ==> count("Bot).Send") == 1 && ret1("Bot).Send") == nil && !result0
+//@   ensures [at-most-one-send] count("Bot).Send") <= 1
+//@   noeffect Bot).Send wrapWithFailureReason
